@@ -95,6 +95,17 @@ def _impl(tier, seed, search):
                     except Exception: continue
                     ok, why = holds_only_members(X, cname)
                     if not ok: L.fail(f'ctor-accepts:{cname}:{kind}:float32', f'{cname}({fname}) with a float32 {kind} matrix returned an object holding a non-member ({why})', inp)
+            # the same defects as object-dtype arrays of ordinary numbers (what np.array(list_with_mixed_types, dtype=object) gives): never let in
+            for kind, Bad in defects(cname, G1):
+                Bo = Bad.astype(object)
+                for fname, ctor in {'bare': lambda: cls(Bo), 'list[good,bad]': lambda: cls([G2, Bo])}.items():
+                    inp = dict(cls=cname, defect=kind, form=fname, dtype='object', value=Bad)
+                    L.count('ctor-rejects(object)'); L.sample('ctor-rejects(object)', inp)
+                    try: X = ctor()
+                    except Exception: continue
+                    try: ok, why = holds_only_members(X, cname)
+                    except Exception: ok, why = False, 'element is not a numeric matrix'
+                    if not ok: L.fail(f'ctor-accepts:{cname}:{kind}:object', f'{cname}({fname}) with an object-dtype {kind} matrix returned an object holding a non-member ({why})', inp)
             # a square array of the rotation-block size given to the rigid-motion class (and the other way round) that is not in the group
             n_ = 2 if cname in ('SO2', 'SE2') else 3
             if cname in ('SE2', 'SE3'):
@@ -172,6 +183,9 @@ def _impl(tier, seed, search):
             for kind, Bad in defects(cname, M):
                 L.check(f'pred-rejects:{cname}', not bool(pred(Bad)), dict(cls=cname, defect=kind, M=Bad), f'membership predicate for {cname} accepts a {kind} matrix',
                         sig=f'pred-accepts-invalid:{cname}:{kind}')
+                try: acc_o = bool(pred(Bad.astype(object)))
+                except Exception: acc_o = False
+                L.check(f'pred-rejects(object):{cname}', not acc_o, dict(cls=cname, defect=kind, dtype='object', M=Bad), f'membership predicate for {cname} accepts an object-dtype {kind} matrix', sig=f'pred-accepts-invalid:{cname}:{kind}:object')
                 B32 = Bad.astype(np.float32)
                 r32 = geom.so_residual(B32.astype(float)) if cname in ('SO2', 'SO3') else geom.se_residual(B32.astype(float))
                 if r32 > 2e-6:
